@@ -216,12 +216,98 @@ func sumCase(a string, vals []float64, conf float64, tag string) {
 		wt = warnTag(sum.Warnings, sorted[0], sorted[len(sorted)-1])
 	}
 	pct := sum.PctRangeString()
-	hx.Printf("case %d kind=sum a=%s vals=%s conf=%s%s ic=%s ilo=%s ihi=%s iconf=%s iwarn=%s ipct=%s tag=%s\n",
-		id, a, list(vals), raw(conf), ext, raw(sum.Center), raw(sum.Lo), raw(sum.Hi), raw(sum.Confidence), wt, hx.HexS(pct), tag)
+	more := ""
+	if a == "nothing" {
+		// the warning's claim, tried out on the real code: does a sample of the named size get a finite
+		// interval at this confidence, and does one value fewer still get an infinite one?
+		wn, wfin, wprev := 0, 0, 0
+		if m := reNeedN.FindStringSubmatch(wt); m != nil {
+			wn, _ = strconv.Atoi(m[2])
+			if finiteAt(wn, conf) {
+				wfin = 1
+			}
+			if m[1] == "ge" && (wn-1 < 1 || !finiteAt(wn-1, conf)) {
+				wprev = 1
+			}
+		}
+		more = fmt.Sprintf(" wn=%d wfin=%d wprev=%d", wn, wfin, wprev)
+	}
+	hx.Printf("case %d kind=sum a=%s vals=%s conf=%s%s ic=%s ilo=%s ihi=%s iconf=%s iwarn=%s ipct=%s%s tag=%s\n",
+		id, a, list(vals), raw(conf), ext, raw(sum.Center), raw(sum.Lo), raw(sum.Hi), raw(sum.Confidence), wt, hx.HexS(pct), more, tag)
 	hx.Printf("obs %d center=%s lo=%s hi=%s conf=%s warn=%s pct=%s\n", id, canon(sum.Center), canon(sum.Lo), canon(sum.Hi),
 		canon(sum.Confidence), wt, hx.HexS(pct))
-	hx.Printf("sobs %d centre=ok ends=ok bracket=ok conf=ok warn=ok pct=ok\n", id)
+	if a == "nothing" {
+		hx.Printf("sobs %d centre=ok ends=ok bracket=ok conf=ok warn=ok pct=ok needn=ok have=ok\n", id)
+	} else {
+		hx.Printf("sobs %d centre=ok ends=ok bracket=ok conf=ok warn=ok pct=ok\n", id)
+	}
 	id++
+}
+
+var reNeedN = regexp.MustCompile(`^need:(ge|gt):(\d+)$`)
+
+var finiteCache = map[[2]uint64]bool{}
+
+// finiteAt runs AssumeNothing.Summary on a sample of n distinct values at the given confidence and
+// reports whether both interval ends are finite.
+func finiteAt(n int, conf float64) bool {
+	key := [2]uint64{uint64(n), math.Float64bits(conf)}
+	if v, ok := finiteCache[key]; ok {
+		return v
+	}
+	xs := make([]float64, n)
+	for i := range xs {
+		xs[i] = float64(100 + i)
+	}
+	sum := benchmath.AssumeNothing.Summary(newSample(xs, 0.05), conf)
+	v := !math.IsInf(sum.Lo, 0) && !math.IsInf(sum.Hi, 0)
+	finiteCache[key] = v
+	return v
+}
+
+// needFamily: confidence levels so high that the sample size the warning names lies in 20..50 and
+// beyond, around the point (n = 30 -> 31) where QuantileCI changes from the exact binomial sum to a
+// normal approximation; sample sizes around the named size.
+func needFamily(r *hx.Rand) {
+	var confs []float64
+	for k := 20; k <= 45; k++ {
+		c := 1 - math.Ldexp(1, -k)
+		confs = append(confs, math.Nextafter(c, 0), c, math.Nextafter(c, 2))
+	}
+	for _, t := range []string{"0.9999999", "0.99999999", "0.999999999", "0.9999999999", "0.99999999999", "0.999999999999", "0.9999999999999"} {
+		c, _ := strconv.ParseFloat(t, 64)
+		confs = append(confs, c)
+	}
+	for _, c := range confs {
+		if c >= 1 {
+			continue
+		}
+		op, n := benchmath.VerifMedianSamples(c)
+		hx.Printf("case %d kind=ms conf=%s need=%s tag=mediansamples+high\n", id, raw(c), needTable(c))
+		hx.Printf("obs %d need=%s:%d\n", id, opName[op], n)
+		id++
+		for _, have := range []int{0, 1, 2, n - 1, n, n + 1, 30, 31, 38, 49, 50, 60} {
+			if have < 0 {
+				continue
+			}
+			op2, n2 := benchmath.VerifMedianSamplesAbove(c, have)
+			hx.Printf("case %d kind=ms conf=%s have=%d need=%s tag=mediansamplesabove\n", id, raw(c), have, needTable(c))
+			hx.Printf("obs %d need=%s:%d\n", id, opName[op2], n2)
+			id++
+		}
+		seen := map[int]bool{}
+		for _, m := range []int{n - 1, n, n + 1, 29, 30, 31, 32 + r.Intn(7), 39 + r.Intn(11), 50, 51 + r.Intn(20)} {
+			if m < 1 || m > 70 || seen[m] {
+				continue
+			}
+			seen[m] = true
+			xs := make([]float64, m)
+			for i := range xs {
+				xs[i] = float64(r.Intn(1000)) / 8
+			}
+			sumCase("nothing", xs, c, "nothing+need")
+		}
+	}
 }
 
 func shuffle(r *hx.Rand, xs []float64) []float64 {
@@ -729,6 +815,7 @@ func main() {
 	}
 
 	xFamily(hx.NewRand(1313), hx.N(40, 400))
+	needFamily(hx.NewRand(1314))
 
 	renderCases(r, hx.N(4000, 40000))
 
